@@ -17,7 +17,8 @@ from . import slicer
 VERIF = os.path.dirname(os.path.dirname(os.path.abspath(__file__)))
 REPO = os.environ.get('CVS_REPO', '/repo')
 STUBS = os.path.join(VERIF, 'stubs')
-SPECS = os.path.join(VERIF, 'specs')
+SPECS = os.environ.get('CVS_SPECS') or os.path.join(VERIF, 'specs')
+SPECS_MAIN = os.path.join(VERIF, 'specs')
 SMTWRAP = os.path.join(VERIF, 'engine', 'smtwrap.py')
 NCPU = int(os.environ.get('CVS_JOBS', str(os.cpu_count() or 4)))
 _sem = threading.BoundedSemaphore(NCPU)
@@ -211,7 +212,7 @@ def check_fields(unit):
 def build_unit(unit, scratch):
     fr = os.path.join(unit['dir'], unit.get('frame', 'frame.cpp'))
     ct = os.path.join(unit['dir'], unit.get('contract', 'contract.c'))
-    inc = ['-I', scratch, '-I', unit['dir'], '-I', SPECS]
+    inc = ['-I', scratch, '-I', unit['dir'], '-I', SPECS, '-I', SPECS_MAIN]
     tool(['goto-cc', '-nostdinc', '-I', STUBS] + inc + unit.get('cxxflags', []) + ['-c', fr, '-o', 'frame.gb'],
          scratch, 'goto-cc (C++ frame TU, verbatim bodies)')
     tool(['goto-cc'] + inc + unit.get('cflags', []) + ['-c', ct, '-o', 'contract.gb'],
